@@ -1361,3 +1361,281 @@ Theorem C17_relayout_udp : forall fx c now br st li src sport d1 d2 m1 m2 r1 r2 
   end.
 Proof. first [ exact C17.C17_relayout_udp | intros; eapply C17.C17_relayout_udp; eassumption ]. Qed.
 End P_C17.
+
+(* ------------------------------------------------------------------ C04 *)
+From Model Require Import Bytes Wire Uri Hdr Message Msg StaticRoute RoundRobin Pins Proxy RunProxy SpecC14 SpecProxy SpecProxy2.
+From Model.proofs Require C04.
+Section P_C04.
+Import C04.
+Theorem C04_bind : forall e peer port from rs tcp m x g d,
+  is_request m = false ->
+  alookup (join_host_port peer port) (ps_backends (x_p x)) = Some g ->
+  method_of m = Ok (s2b "INVITE") -> dialog_of m = Ok d ->
+  let addr := join_host_port peer port in
+  let life := pins_lifetime (ps_pins (x_p x)) (get_expires m 0) in
+  0 <= life ->
+  exists x', process_message e peer port from rs tcp m x = Ok x' /\
+    pin_at d (pin_val_backend addr g) (e_now e + life) (ps_pins (x_p x')) /\
+    (forall t, t < e_now e + life -> snd (pins_get t d (ps_pins (x_p x'))) = Some (pin_val_backend addr g)) /\
+    static_eq (x_p x) (x_p x').
+Proof. first [ exact C04.C04_bind | intros; eapply C04.C04_bind; eassumption ]. Qed.
+Theorem C04_bind_subscribe : forall e peer port from rs tcp m x host hport tr g d,
+  is_request m = false ->
+  relay_hop m = Ok (host, hport, tr) ->
+  alookup (host ++ ":"%char :: itoa hport) (ps_backends (x_p x)) = Some g ->
+  method_of m = Ok (s2b "SUBSCRIBE") -> dialog_of m = Ok d ->
+  let addr := host ++ ":"%char :: itoa hport in
+  let life := pins_lifetime (ps_pins (x_p x)) (get_expires m 0) in
+  0 <= life ->
+  exists x', process_message e peer port from rs tcp m x = Ok x' /\
+    pin_at d (pin_val_backend addr g) (e_now e + life) (ps_pins (x_p x')) /\
+    (forall t, t < e_now e + life -> snd (pins_get t d (ps_pins (x_p x'))) = Some (pin_val_backend addr g)) /\
+    static_eq (x_p x) (x_p x').
+Proof. first [ exact C04.C04_bind_subscribe | intros; eapply C04.C04_bind_subscribe; eassumption ]. Qed.
+Theorem C04_sticky_step : forall e m x t0 d addr g ex dst,
+  fx_indialog_invite (e_fx e) = true ->
+  ps_has_rr (x_p x) = true -> first_transport (e_lc e) = Some t0 ->
+  is_request m = true -> dialog_of m = Ok d ->
+  pin_at d (pin_val_backend addr g) ex (ps_pins (x_p x)) -> e_now e < ex ->
+  alookup addr (ps_backends (x_p x)) = Some g -> gen_ok g -> addr_dest addr = Some dst ->
+  let b := fwd_bytes e t0 (x_p x) m in
+  let x' := fst (send_to_backend e m x) in
+  (* exactly one datagram, to the pinned backend (none at all if it exceeds a datagram) *)
+  x_outs x' = x_outs x ++ (if fits_datagram b then [(dst, b)] else []) /\
+  (* the rotation did not move, the members did not change *)
+  ps_rr (x_p x') = ps_rr (x_p x) /\ ps_backends (x_p x') = ps_backends (x_p x) /\
+  (* the pin stays, except after a terminating NOTIFY which removes it after having used it *)
+  ((forall c, snd (s_get_cseq m) = Ok c -> trans_key e c <> d) ->
+   if notify_terminated (req_method m) m
+   then alookup d (p_tab (ps_pins (x_p x'))) = None
+   else pin_at d (pin_val_backend addr g) ex (ps_pins (x_p x'))).
+Proof. first [ exact C04.C04_sticky_step | intros; eapply C04.C04_sticky_step; eassumption ]. Qed.
+Theorem C04_sticky_step_reverse : forall e m m' x t0 d addr g ex dst cid f t f' t',
+  get_raw (s2b "Call-ID") m = Ok cid -> get_raw (s2b "Call-ID") m' = Ok cid ->
+  snd (s_get_from m) = Ok f -> snd (s_get_to m) = Ok t ->
+  snd (s_get_from m') = Ok f' -> snd (s_get_to m') = Ok t' ->
+  fromto_tag f' = fromto_tag t -> fromto_tag t' = fromto_tag f ->
+  dialog_addr (fromto_addr_spec f') = dialog_addr (fromto_addr_spec t) ->
+  dialog_addr (fromto_addr_spec t') = dialog_addr (fromto_addr_spec f) ->
+  dialog_of m = Ok d ->
+  fx_indialog_invite (e_fx e) = true -> ps_has_rr (x_p x) = true -> first_transport (e_lc e) = Some t0 ->
+  is_request m' = true ->
+  pin_at d (pin_val_backend addr g) ex (ps_pins (x_p x)) -> e_now e < ex ->
+  alookup addr (ps_backends (x_p x)) = Some g -> gen_ok g -> addr_dest addr = Some dst ->
+  let b := fwd_bytes e t0 (x_p x) m' in
+  let x' := fst (send_to_backend e m' x) in
+  x_outs x' = x_outs x ++ (if fits_datagram b then [(dst, b)] else []) /\
+  ps_rr (x_p x') = ps_rr (x_p x) /\ ps_backends (x_p x') = ps_backends (x_p x).
+Proof. first [ exact C04.C04_sticky_step_reverse | intros; eapply C04.C04_sticky_step_reverse; eassumption ]. Qed.
+Theorem C04_preserved_message : forall e peer port from rs tcp m x x' d v ex,
+  process_message e peer port from rs tcp m x = Ok x' ->
+  msg_ok d (e_branch e) m ->
+  pin_at d v ex (ps_pins (x_p x)) -> e_now e < ex ->
+  pin_at d v ex (ps_pins (x_p x')) /\ mem_eq (x_p x) (x_p x').
+Proof. first [ exact C04.C04_preserved_message | intros; eapply C04.C04_preserved_message; eassumption ]. Qed.
+Theorem C04_unpinned_step : forall e m x t0,
+  ps_has_rr (x_p x) = true -> first_transport (e_lc e) = Some t0 -> is_request m = true ->
+  (forall d, dialog_of m = Ok d -> snd (pins_get (e_now e) d (ps_pins (x_p x))) = None) ->
+  let b := fwd_bytes e t0 (x_p x) m in
+  let x' := fst (send_to_backend e m x) in
+  x_outs x' = x_outs x ++
+    match snd (rr_dispatch (ps_rr (x_p x))) with
+    | Some a => if fits_datagram b then to_addr_outs a b else []
+    | None => []
+    end /\
+  ps_rr (x_p x') = fst (rr_dispatch (ps_rr (x_p x))).
+Proof. first [ exact C04.C04_unpinned_step | intros; eapply C04.C04_unpinned_step; eassumption ]. Qed.
+Theorem C04_preserved_history : forall li d addr g ex fx c h st st' outss,
+  run fx c st h = Ok (st', outss) ->
+  Forall (fun '(now, br, ev) => now < ex /\ ev_ok li d addr br ev) h ->
+  pinned li d addr g ex st -> pinned li d addr g ex st'.
+Proof. first [ exact C04.C04_preserved_history | intros; eapply C04.C04_preserved_history; eassumption ]. Qed.
+Theorem C04_sticky : forall c li lc t0 h1 tb bb peer port datab h2 tr br src sport datar st0 stf outss
+                            st1 o1 p1 mb restb mr restr g d dst,
+  nth_opt (c_listens c) li = Some lc -> first_transport lc = Some t0 ->
+  run all_fixed c st0 (h1 ++ (tb, bb, EvUdp li peer port datab) :: h2 ++ [(tr, br, EvUdp li src sport datar)])
+    = Ok (stf, outss) ->
+  (* when the response arrives its sender is a registered backend (generation g) *)
+  run all_fixed c st0 h1 = Ok (st1, o1) -> nth_p (st_proxies st1) li = Some p1 ->
+  let addr := join_host_port peer port in
+  alookup addr (ps_backends p1) = Some g -> gen_ok g -> ps_has_rr p1 = true -> addr_dest addr = Some dst ->
+  (* the binding response: INVITE in CSeq, both tags *)
+  parse_message datab = Ok (mb, restb) -> is_request mb = false ->
+  method_of mb = Ok (s2b "INVITE") -> dialog_of mb = Ok d ->
+  let life := pins_lifetime (ps_pins p1) (get_expires mb 0) in
+  0 <= life ->
+  (* in between: anything but a terminator for d, within the lifetime *)
+  Forall (fun '(now, b, ev) => now < tb + life /\ ev_ok li d addr b ev) h2 ->
+  (* the request: same dialog (either direction, any method), addressed to the service *)
+  parse_message datar = Ok (mr, restr) -> dialog_of mr = Ok d -> tr < tb + life ->
+  addressed_to_service (mk_env all_fixed c (item_rs_of true) li lc tr br) (udp_from lc) mr ->
+  exists b, last outss [] = if fits_datagram b then [(dst, b)] else [].
+Proof. first [ exact C04.C04_sticky | intros; eapply C04.C04_sticky; eassumption ]. Qed.
+Theorem C04_unpinned_balanced : forall e peer port from rs tcp m x x' t0,
+  addressed_to_service e from m -> process_message e peer port from rs tcp m x = Ok x' ->
+  ps_has_rr (x_p x) = true -> first_transport (e_lc e) = Some t0 ->
+  (forall d, dialog_of m = Ok d -> snd (pins_get (e_now e) d (ps_pins (x_p x))) = None) ->
+  exists b,
+    x_outs x' = x_outs x ++
+      match snd (rr_dispatch (ps_rr (x_p x))) with
+      | Some a => if fits_datagram b then to_addr_outs a b else []
+      | None => []
+      end /\
+    ps_rr (x_p x') = fst (rr_dispatch (ps_rr (x_p x))).
+Proof. first [ exact C04.C04_unpinned_balanced | intros; eapply C04.C04_unpinned_balanced; eassumption ]. Qed.
+Theorem C04_sticky_pinned : forall c li lc t0 h2 tr br src sport datar st2 stf outss mr restr addr g d ex dst,
+  nth_opt (c_listens c) li = Some lc -> first_transport lc = Some t0 ->
+  pinned li d addr g ex st2 -> gen_ok g -> addr_dest addr = Some dst ->
+  run all_fixed c st2 (h2 ++ [(tr, br, EvUdp li src sport datar)]) = Ok (stf, outss) ->
+  Forall (fun '(now, b, ev) => now < ex /\ ev_ok li d addr b ev) h2 ->
+  parse_message datar = Ok (mr, restr) -> dialog_of mr = Ok d -> tr < ex ->
+  addressed_to_service (mk_env all_fixed c (item_rs_of true) li lc tr br) (udp_from lc) mr ->
+  exists b, last outss [] = if fits_datagram b then [(dst, b)] else [].
+Proof. first [ exact C04.C04_sticky_pinned | intros; eapply C04.C04_sticky_pinned; eassumption ]. Qed.
+Theorem C04_legacy_refuted :
+  let h := firstn 4 ex_hist in
+  let st3 := match run legacy_fixes ex_cfg ex_st0 (firstn 3 ex_hist) with Ok (s, _) => s | _ => ex_st0 end in
+  (* the binding is there and live when the re-INVITE arrives (t = 4 s) *)
+  match nth_p (st_proxies st3) 0 with
+  | Some p => snd (pins_get (sec 4) ex_d (ps_pins p)) = Some (pin_val_backend (s2b "10.0.0.12:5070") 1)
+  | None => False
+  end /\
+  dialog_of (msg_of ex_reinvite) = Ok ex_d /\
+  last (dests (run legacy_fixes ex_cfg ex_st0 h)) [] = [DUdp (s2b "10.0.0.11") 5070] /\
+  last (dests (run all_fixed ex_cfg ex_st0 h)) [] = [DUdp (s2b "10.0.0.12") 5070].
+Proof. first [ exact C04.C04_legacy_refuted | intros; eapply C04.C04_legacy_refuted; eassumption ]. Qed.
+Theorem C04_preserved : forall li d addr g ex fx c now branch st ev st' outs,
+  proxy_step fx c now branch st ev = Ok (st', outs) ->
+  ev_ok li d addr branch ev -> now < ex -> pinned li d addr g ex st -> pinned li d addr g ex st'.
+Proof. first [ exact C04.C04_preserved | intros; eapply C04.C04_preserved; eassumption ]. Qed.
+Theorem C04_dialog_of_symmetric : forall m m' cid f t f' t',
+  get_raw (s2b "Call-ID") m = Ok cid -> get_raw (s2b "Call-ID") m' = Ok cid ->
+  snd (s_get_from m) = Ok f -> snd (s_get_to m) = Ok t ->
+  snd (s_get_from m') = Ok f' -> snd (s_get_to m') = Ok t' ->
+  fromto_tag f' = fromto_tag t -> fromto_tag t' = fromto_tag f ->
+  dialog_addr (fromto_addr_spec f') = dialog_addr (fromto_addr_spec t) ->
+  dialog_addr (fromto_addr_spec t') = dialog_addr (fromto_addr_spec f) ->
+  dialog_of m' = dialog_of m.
+Proof. first [ exact C04.dialog_of_symmetric | intros; eapply C04.dialog_of_symmetric; eassumption ]. Qed.
+Theorem C04_bref_round_trip : forall b, match b with BObj _ g => gen_ok g | BRR => True end ->
+  bref_of_val (bref_val b) = b.
+Proof. first [ exact C04.bref_round_trip | intros; eapply C04.bref_round_trip; eassumption ]. Qed.
+Theorem C04_key_neq_dialog : forall meth branch d,
+  ~ In "-"%char meth -> has_prefix cookie branch = true ->
+  match index_byte "-"%char d with
+  | Some i => has_prefix cookie (skipn (S i) d) = false
+  | None => True
+  end ->
+  meth ++ "-"%char :: branch <> d.
+Proof. first [ exact C04.key_neq_dialog | intros; eapply C04.key_neq_dialog; eassumption ]. Qed.
+End P_C04.
+
+(* ------------------------------------------------------------------ C12 *)
+From Model Require Import Bytes Wire Uri Hdr Message Msg StaticRoute RoundRobin Pins Proxy RunProxy SpecC14 SpecProxy SpecProxy2.
+From Model.proofs Require C04 C12.
+Section P_C12.
+Import C04 C12.
+Theorem C12_register : forall e peer pport from rs c m x x' v cs br h0 pt tr0 host,
+  fx_resolved_key (e_fx e) = true ->
+  is_request m = true -> not_forwarded e m ->
+  top_via_of m = Ok v -> snd (s_get_cseq m) = Ok cs -> via_get_branch v = Some br ->
+  hop_of_via (stamp_via rs peer pport v) = (h0, pt, tr0) -> reg_host (e_fx e) h0 = Ok host ->
+  process_message e peer pport from rs (Some c) m x = Ok x' ->
+  let K := full_addr tcp (resolve (e_cfg e) host) pt (cs_method cs ++ "-"%char :: br) in
+  reg_at K c (now_s e + 3600) (x_p x') /\ x_conns x' = x_conns x /\
+  (* every other entry is as it was *)
+  (forall K' f, alookup K' (ps_table (x_p x)) = Some f -> keepable (now_s e) f ->
+                K' <> K -> K' <> full_addr tcp (resolve (e_cfg e) host) pt [] ->
+                alookup K' (ps_table (x_p x')) = Some f).
+Proof. first [ exact C12.C12_register | intros; eapply C12.C12_register; eassumption ]. Qed.
+Theorem C12_lookup : forall e peer pport from rs tcp0 m x v host pt tr cs br c ex,
+  is_request m = false ->
+  next_top m = Ok v -> hop_of_via v = (host, pt, tr) -> to_lower tr = tcp ->
+  snd (s_get_cseq m) = Ok cs -> via_get_branch v = Some br ->
+  let K := full_addr tcp (resolve (e_cfg e) host) pt (cs_method cs ++ "-"%char :: br) in
+  reg_at K c ex (x_p x) -> live (now_s e) ex -> conn_open (x_conns x) c = true ->
+  exists x' b, process_message e peer pport from rs tcp0 m x = Ok x' /\
+    (* written to c and to nothing else *)
+    x_outs x' = x_outs x ++ [(DConn c, b)] /\ x_conns x' = x_conns x /\
+    (* a provisional response leaves the entry in place *)
+    (is_final_response m = false -> reg_at K c ex (x_p x')) /\
+    (* a final response consumes it, AFTER having been sent through it *)
+    (is_final_response m = true -> fx_resolved_key (e_fx e) = true -> alookup K (ps_table (x_p x')) = None).
+Proof. first [ exact C12.C12_lookup | intros; eapply C12.C12_lookup; eassumption ]. Qed.
+Theorem C12_until_final : forall e peer pport from rs tcp0 m x v host pt tr cs br c ex,
+  is_request m = false ->
+  next_top m = Ok v -> hop_of_via v = (host, pt, tr) -> to_lower tr = tcp ->
+  snd (s_get_cseq m) = Ok cs -> via_get_branch v = Some br ->
+  reg_at (full_addr tcp (resolve (e_cfg e) host) pt (cs_method cs ++ "-"%char :: br)) c ex (x_p x) ->
+  live (now_s e) ex -> conn_open (x_conns x) c = true ->
+  exists x' b, process_message e peer pport from rs tcp0 m x = Ok x' /\ x_outs x' = x_outs x ++ [(DConn c, b)].
+Proof. first [ exact C12.C12_until_final | intros; eapply C12.C12_until_final; eassumption ]. Qed.
+Theorem C12_same_connection : forall cf li lc h1 tq bq c dataq h2 tr br peer pport datar st0 stf outss
+    st1 o1 cn pq mq restq mr restr v cs brq h0 pt tr0 host v2 host2 trr cs2,
+  nth_opt (c_listens cf) li = Some lc ->
+  run all_fixed cf st0 (h1 ++ (tq, bq, EvTcpData c dataq) :: h2 ++ [(tr, br, EvUdp li peer pport datar)]) = Ok (stf, outss) ->
+  run all_fixed cf st0 h1 = Ok (st1, o1) ->
+  (* c is an open connection of listener li *)
+  find (fun x => Nat.eqb (cn_id x) c) (st_conns st1) = Some cn -> cn_open cn = true -> cn_li cn = li ->
+  nth_p (st_proxies st1) li = Some pq ->
+  (* the request: one complete message, not relayed along a Route / static route *)
+  parse_message dataq = Ok (mq, restq) -> trim_left restq = [] ->
+  is_request mq = true -> not_forwarded (mk_env all_fixed cf (item_rs_of true) li lc tq bq) mq ->
+  top_via_of mq = Ok v -> snd (s_get_cseq mq) = Ok cs -> via_get_branch v = Some brq ->
+  hop_of_via (stamp_via (cn_received_support cn) (cn_peer cn) (cn_peer_port cn) v) = (h0, pt, tr0) ->
+  reg_host all_fixed h0 = Ok host ->
+  (* the entry is filed under the RESOLVED response host *)
+  let K := full_addr tcp (resolve cf host) pt (cs_method cs ++ "-"%char :: brq) in
+  let ex := tq / second + 3600 in
+  (* in between: nothing that touches K except provisional responses of the transaction itself;
+     c is not closed; less than 3600 s *)
+  (forall st2 oq, proxy_step all_fixed cf tq bq st1 (EvTcpData c dataq) = Ok (st2, oq) ->
+                  hist_away li K c ex all_fixed cf st2 h2) ->
+  (* the response: the client's Via entry under the proxy's: a response host that resolves to the
+     same address (in particular the same text), same port, same branch, same CSeq method *)
+  parse_message datar = Ok (mr, restr) -> is_request mr = false ->
+  next_top mr = Ok v2 -> hop_of_via v2 = (host2, pt, trr) -> to_lower trr = tcp ->
+  snd (s_get_cseq mr) = Ok cs2 -> cs_method cs2 = cs_method cs -> via_get_branch v2 = Some brq ->
+  resolve cf host2 = resolve cf host -> tr / second <= ex ->
+  exists b, last outss [] = [(DConn c, b)].
+Proof. first [ exact C12.C12_same_connection | intros; eapply C12.C12_same_connection; eassumption ]. Qed.
+Theorem C12_legacy_refuted :
+  (* before the repair (fx_resolved_key = false) *)
+  dests (run legacy_key_fixes b2_cfg (init_state b2_cfg 0 []) b2_hist) = [ []; [DUdp (s2b "10.0.0.11") 5070]; [] ] /\
+  dests (run legacy_key_fixes b2_cfg (init_state b2_cfg 0 [(s2b "10.0.0.50", 5060)]) b2_hist) =
+    [ []; [DUdp (s2b "10.0.0.11") 5070]; [DDial (s2b "10.0.0.50") 5060 1; DConn 1] ] /\
+  keys_of (run legacy_key_fixes b2_cfg (init_state b2_cfg 0 []) (firstn 2 b2_hist)) =
+    map s2b ["tcp://10.0.0.50:40001"; "tcp://client.example:5060"; "tcp://client.example:5060-INVITE-z9hG4bKa"]%string /\
+  keys_of (run legacy_key_fixes b2_cfg (init_state b2_cfg 0 []) b2_hist) =
+    map s2b ["tcp://10.0.0.50:40001"; "tcp://client.example:5060"; "tcp://10.0.0.50:5060";
+             "tcp://10.0.0.50:5060-INVITE-z9hG4bKa"]%string /\
+  (* after the repair: the same history delivers the 200 on connection 0, whether or not
+     10.0.0.50:5060 accepts connections, and the per-transaction key is consumed *)
+  dests (run all_fixed b2_cfg (init_state b2_cfg 0 []) b2_hist) = [ []; [DUdp (s2b "10.0.0.11") 5070]; [DConn 0] ] /\
+  dests (run all_fixed b2_cfg (init_state b2_cfg 0 [(s2b "10.0.0.50", 5060)]) b2_hist) =
+    [ []; [DUdp (s2b "10.0.0.11") 5070]; [DConn 0] ] /\
+  keys_of (run all_fixed b2_cfg (init_state b2_cfg 0 []) (firstn 2 b2_hist)) =
+    map s2b ["tcp://10.0.0.50:40001"; "tcp://10.0.0.50:5060"; "tcp://10.0.0.50:5060-INVITE-z9hG4bKa"]%string /\
+  keys_of (run all_fixed b2_cfg (init_state b2_cfg 0 []) b2_hist) =
+    map s2b ["tcp://10.0.0.50:40001"; "tcp://10.0.0.50:5060"]%string.
+Proof. first [ exact C12.C12_legacy_refuted | intros; eapply C12.C12_legacy_refuted; eassumption ]. Qed.
+Theorem C12_preserved : forall li K c ex fx cf now branch st ev st' outs,
+  proxy_step fx cf now branch st ev = Ok (st', outs) ->
+  ev_away li K c fx cf now branch st ev -> now / second <= ex ->
+  held li K c ex st -> held li K c ex st'.
+Proof. first [ exact C12.C12_preserved | intros; eapply C12.C12_preserved; eassumption ]. Qed.
+Theorem C12_preserved_history : forall li K c ex fx cf h st st' outss,
+  run fx cf st h = Ok (st', outss) -> hist_away li K c ex fx cf st h -> held li K c ex st -> held li K c ex st'.
+Proof. first [ exact C12.C12_preserved_history | intros; eapply C12.C12_preserved_history; eassumption ]. Qed.
+Theorem C12_full_addr_inj_tid : forall proto host port t t',
+  full_addr proto host port t = full_addr proto host port t' -> beq proto tcp = true -> t = t'.
+Proof. first [ exact C12.full_addr_inj_tid | intros; eapply C12.full_addr_inj_tid; eassumption ]. Qed.
+Theorem C12_tid_inj : forall m b m' b', ~ In "-"%char m -> ~ In "-"%char m' ->
+  m ++ "-"%char :: b = m' ++ "-"%char :: b' -> m = m' /\ b = b'.
+Proof. first [ exact C12.tid_inj | intros; eapply C12.tid_inj; eassumption ]. Qed.
+Theorem C12_keys_differ : forall host port m b m' b', ~ In "-"%char m -> ~ In "-"%char m' -> (m, b) <> (m', b') ->
+  full_addr tcp host port (m ++ "-"%char :: b) <> full_addr tcp host port (m' ++ "-"%char :: b').
+Proof. first [ exact C12.keys_differ | intros; eapply C12.keys_differ; eassumption ]. Qed.
+Theorem C12_accept_key_differs host port t : t <> [] -> full_addr tcp host port t <> full_addr tcp host port [].
+Proof. first [ exact C12.accept_key_differs | intros; eapply C12.accept_key_differs; eassumption ]. Qed.
+End P_C12.
